@@ -237,7 +237,7 @@ def _sign_message(ctx, params, wm):
             ctx.count("signmsg.requests")
             ctx.seen("signmsg", (params["salt"], f, req))
             try:
-                sig = bytes(bu.sig(key, msg, sighash_flag=g, msg_preimage=True))
+                sig = bytes(bu.sig(key, msg, g, True) if (f + idx) % 2 else bu.sig(key, msg, sighash_flag=g, msg_preimage=True))    # positional and keyword call forms
             except ContractViolation as cv:
                 if cv.prop == "C11":
                     raise
